@@ -393,7 +393,8 @@ func (tx *Transaction) AddRequestHeader(key string, value string) {
 	switch keyl {
 	case "content-type":
 		val := strings.ToLower(value)
-		if val == "application/x-www-form-urlencoded" {
+		// the media type may be followed by parameters ("; charset=UTF-8")
+		if val == "application/x-www-form-urlencoded" || strings.HasPrefix(val, "application/x-www-form-urlencoded;") {
 			tx.variables.reqbodyProcessor.Set("URLENCODED")
 		} else if strings.HasPrefix(val, "multipart/form-data") {
 			tx.variables.reqbodyProcessor.Set("MULTIPART")
